@@ -25,7 +25,7 @@ BOUNDS = {'quick': {'puts': 2, 'modes': ['wait', 'cancel', 'start'], 'guard_time
                     'durations': 'symbolic 0<d<=100', 'gaps': 'symbolic 0<=gap<=100', 'stop_timeout': 1000},
           'thorough': {'puts': 3, 'note': '3 puts without stop_data / late ties (guard_time only in wait mode); 2 puts for the stop_data, late-tie and guarded cancel/start variants', 'modes': ['wait', 'cancel', 'start'], 'guard_time': [None, 'symbolic 0<g<=10'],
                        'durations': 'symbolic 0<d<=100', 'gaps': 'symbolic 0<=gap<=100', 'stop_timeout': 1000}}
-OUTSIDE = ["pending work longer than stop_timeout (the time-out path of _run_tasks)", "more puts than the bound",
+OUTSIDE = ["more puts than the bound",
            "same-instant orders other than heapq's", "InExecutor / real threads"]
 STUBS = ["virtual-time event loop (symx/vloop.py) with a symbolic clock",
          "the user coroutine = sleep(symbolic duration) then return / raise (solver's choice)"]
@@ -337,6 +337,53 @@ def scen_missing_arg(env, mode):
                   and isinstance(bad[0].get('error'), Exception), info=lambda: bad)
 
 
+def scen_stop_timeout(env, mode, stop_data):
+    """'at stop pending work is completed within stop_timeout': however much work is pending - two queued runs of a
+    symbolic duration each, optionally stop_data - the clean-up of the block never takes longer than stop_timeout"""
+    circ = fresh_circuit()
+    loopref = []
+    now = lambda: loopref[0].time()
+    p = Probe('p', clock=now)
+    T = env.real('stop_timeout', 0, 5, lo_open=True)
+    D = env.real('dur', 0, 20, lo_open=True)
+    ts = env.real('t_stop', 0, 30)
+    runs = []
+
+    async def coro(value):
+        runs.append(('start', now(), value))
+        try:
+            await asyncio.sleep(D)
+        finally:
+            runs.append(('finish', now(), value))
+        return value
+    kw = {'stop_data': {'value': STOP_VALUE}} if stop_data else {}
+    oa = edzed.OutputAsync('oa', coro=coro, mode=mode, stop_timeout=T, on_success=edzed.Event(p, 'ok'),
+                           on_cancel=edzed.Event(p, 'cancel'), on_error=edzed.Event(p, 'err'), **kw)
+    state = {}
+
+    async def main():
+        loop = asyncio.get_running_loop()
+        loopref.append(loop)
+        asyncio.create_task(circ.run_forever())
+        await circ.wait_init()
+        ev = edzed.ExtEvent(oa, 'put')
+        ev.send(0)
+        ev.send(1)
+        await asyncio.sleep(ts)
+        state['stop_at'] = loop.time()
+        await circ.shutdown()
+        state['stopped_at'] = loop.time()
+        state['leftover'] = [t.get_name() for t in asyncio.all_tasks() if t is not asyncio.current_task() and not t.done()]
+        await asyncio.sleep(100.0)
+        state['late'] = [r for r in runs if r[1] > state['stopped_at']]
+    vloop.run(main())
+    took = state['stopped_at'] - state['stop_at']
+    if env.possible(took >= T):
+        env.note('pending-work-longer-than-stop-timeout')
+    env.check('within-stop-timeout', took <= T, info=lambda: (mode, stop_data, str(took), str(T), str(D), runs))
+    env.check('no-leftover', not state['leftover'] and not state['late'], info=lambda: state)
+
+
 def scen_ctor(env):
     """guard_time must not exceed stop_timeout"""
     fresh_circuit()
@@ -362,6 +409,9 @@ def shards(tier):
     n = BOUNDS[tier]['puts']
     out = [{'name': 'ctor', 'scenario': 'scen_ctor'}]
     for mode in ('wait', 'cancel', 'start'):
+        for sd in (False, True):
+            out.append({'name': f'{mode}: pending work vs stop_timeout, stop_data={sd}', 'scenario': 'scen_stop_timeout',
+                        'params': {'mode': mode, 'stop_data': sd}, 'cost': 3})
         out.append({'name': f'{mode}: put without the argument item', 'scenario': 'scen_missing_arg', 'params': {'mode': mode}})
     for mode in ('wait', 'cancel', 'start'):
         for wg in (False, True):
